@@ -311,7 +311,10 @@ def storeSector (m : Sem α β) (undo : α → α) (n : Nat) (k : Option Nat) (s
 
 /-! ## chain batches and the processed-tip marker (index/update.go) -/
 
-/-- persistent chain state `db` as of chain position `marker`, and the indexer's in-memory tip `mem` -/
+/-- persistent chain state `db` as of chain position `marker`, and the indexer's in-memory tip `mem`.
+A position is the NAME of a chain index (a number given to every block of every fork), not a height: a batch
+from `p` to `q` carries the blocks reverted on the way from `p` to the common ancestor and the blocks applied
+from there to `q` (`chain.Manager.UpdatesSince`), so `q` may lie "behind" `p` (a reverts-only batch). -/
 structure Idx (σ : Type) where
   db     : σ
   marker : Nat
@@ -328,6 +331,15 @@ then the in-memory tip -/
 def idxStep {σ : Type} (delta : Nat → Nat → σ → σ) (s : Idx σ) : Ev → Idx σ
   | .batch target fails =>
     if fails then s
+    else { db := delta s.mem target s.db, marker := target, mem := target }
+  | .restart => { s with mem := s.marker }
+
+/-- the indexer with a marker that is only written by batches that apply something (`back p q`: the batch
+from `p` to `q` only reverts): the data of such a batch commit, the marker stays, the in-memory tip moves -/
+def idxStepNoMarkerOnRevert {σ : Type} (delta : Nat → Nat → σ → σ) (back : Nat → Nat → Bool) (s : Idx σ) : Ev → Idx σ
+  | .batch target fails =>
+    if fails then s
+    else if back s.mem target then { db := delta s.mem target s.db, marker := s.marker, mem := target }
     else { db := delta s.mem target s.db, marker := target, mem := target }
   | .restart => { s with mem := s.marker }
 
